@@ -42,7 +42,7 @@ package connectconformance
 //@   assert_at "errPrinter.PrefixPrintf(": !isSideband && str != ""
 //@   loop 0: invariant r != nil && !chanClosed[refServerFinished]
 
-//@ elemvalues []*conformancev1.TestCase: v != nil && v.Request != nil
+//@ elemvalues []*conformancev1.TestCase in runTestCasesForServer: v != nil && v.Request != nil
 
 // Every case of the batch ends with an outcome, or was accepted by the client multiplexer
 // (whose callback will record one): never silently missing. If the server cannot be started,
